@@ -113,17 +113,24 @@ class C11(Check):
         p, s = Packet(), SterilePacket()
         outs = []
         for w, cmd, data, wkc, idx, addr in case["ops"]:
-            try:
-                a, b = p.append(ECCmd(cmd) if cmd in ECCmd._value2member_map_ else _FakeCmd(cmd), data, idx, *addr, wkc=wkc)
-            except OverflowError:
-                outs.append(Err(3, "overflow"))
-                continue
-            outs.append([a, b])
             c = ECCmd(cmd) if cmd in ECCmd._value2member_map_ else _FakeCmd(cmd)
-            if w:
-                s.append_writer(c, data, idx, *addr, counter=wkc)
-            else:
-                s.append(c, data, idx, *addr, counter=wkc)
+            try:
+                a, b = p.append(c, data, idx, *addr, wkc=wkc)
+                rejected = False
+            except OverflowError:
+                rejected = True
+            # the sterile packet gets the same datagram, also when it is going to be rejected: the packet is used further afterwards
+            try:
+                if w:
+                    s.append_writer(c, data, idx, *addr, counter=wkc)
+                else:
+                    s.append(c, data, idx, *addr, counter=wkc)
+                srejected = False
+            except OverflowError:
+                srejected = True
+            if rejected != srejected:
+                return Err(4, f"Packet {'rejected' if rejected else 'accepted'} datagram {len(outs)}, SterilePacket {'rejected' if srejected else 'accepted'} it")
+            outs.append(Err(3, "overflow") if rejected else [a, b])
         try:
             frame = bytes(p.assemble(case["index"], case["ethertype"]))
         except struct.error:
@@ -132,6 +139,8 @@ class C11(Check):
             ster = bytes(s.sterile(case["index"], case["ethertype"]))
         except struct.error:
             ster = None
+        except Exception as ex:      # noqa
+            return Err(4, f"sterile() raised {type(ex).__name__}: {ex}")
         assert s.size == p.size
         otf = [[a, b, c.value] for a, b, c in s.on_the_fly]
         case["_counters"] = dict(s.counters)
